@@ -17,6 +17,7 @@ EXPLANATION = (
     "adjust_duration = validate_duration(max(d, min_duration)); align delays go through adjust_duration. GUARD: sequence duration aggregates with max over all channels; channel duration starts from the last slot's tf. "
     "NOT decided: non-negativity and exact clock multiples as numbers. FLOW (added): a pulse built for a slot lasts exactly tf - ti of that slot; the start of a pulse slot exceeds the previous end only by a delay that is <= 0 or an adjust_duration result. Round 3 (added): add_pulse inserts the delay under `slot.ti - last.tf > 0` only (no protocol-dependent gap); Sequence._set_register rewrites slot i with slot i itself, `targets` replaced."
     ' Round 4 (added): the gap before a pulse is filled through add_delay (a hand-made delay slot bypasses the EOM/idle bookkeeping).'
+    ' Round 5 (added): the backward scan of get_duration(include_fall_time=True) stops only under `not include_fall_time` or under the look-back window test (never merely because a pulse was met), and the window uses the EOM rise time in EOM mode.'
 )
 ASSUMPTIONS = ["formulas, guards and sibling code are matched on the symbolic normal form (pstatic/sym.py): temporaries, private helpers, conditional forms and operand order do not matter; state mutation between two reads of one access path is not modelled (orderings are taken from the program order of the logged calls)", "write ownership (OWN) uses the whole-program effect summaries at (class, field) granularity"]
 
